@@ -67,12 +67,12 @@ def c05_attribution(f, sig, sched, mech, detail, pastify=False):
     from rtverif import pastmodel
     if pastify and mech == 'value' and pastmodel.past_over_future(f):
         return 'D-past-over-future'
-    if mech == 'value' and not pastify:
-        return c05_origin(f, sig, sched)
+    if mech == 'value':
+        return c05_origin(f, sig, sched, pastify)
     return None
 
 
-def c05_origin(f, sig, sched):
+def c05_origin(f, sig, sched, pastify=False):
     """D-dense-origin, online flavour: bounded past operators open their initial empty-window piece
     only when the first stamp is exactly 0.  Attributed if the signals start later than 0 AND the
     same schedule on the signals shifted to start at 0 agrees with the reference everywhere."""
@@ -85,14 +85,18 @@ def c05_origin(f, sig, sched):
         return None
     nsig, start = normalise_signals(sig)
     names = sorted(nsig)
+    h = lang.horizon(f) if pastify else 0
     try:
         exp = ref_dense.evaluate(f, nsig)
-        outs = c05.run_schedule(lang.to_text(f), names, nsig, sched)
+        outs = c05.run_schedule(lang.to_text(f), names, nsig, sched, pastify)
     except Exception:
         return None
-    cat = [x for o in outs for x in o if x[0] == x[0] and abs(x[0]) != ref_discrete.INF]
+    cat = [[x[0] - float(h), x[1]] for o in outs for x in o if x[0] == x[0] and abs(x[0]) != ref_discrete.INF]
     if not cat:
         return None
-    if ref_dense.compare(exp, cat, ref_dense.Q(cat[0][0]), ref_dense.Q(cat[-1][0]), ref_discrete.same) is None:
+    lo, hi = max(ref_dense.Q(cat[0][0]), ref_dense.Q(0)), ref_dense.Q(cat[-1][0])
+    if hi < lo:
+        return None
+    if ref_dense.compare(exp, cat, lo, hi, ref_discrete.same) is None:
         return 'D-dense-origin'
     return None
